@@ -75,6 +75,7 @@ class VLoop(asyncio.BaseEventLoop):
         self.iterations = 0
         self.net = MemNet(self)
         self.exceptions = []
+        self.unretrieved = []
         self.exec_mode = 'deferred'      # 'deferred' | 'manual'
         self.exec_jobs = []              # manual mode: [fut, func, args]
         self.set_exception_handler(self._on_exception)
@@ -91,7 +92,13 @@ class VLoop(asyncio.BaseEventLoop):
         pass
 
     def _on_exception(self, loop, context):
-        self.exceptions.append(context)
+        # "... exception was never retrieved" is asyncio's garbage-collection
+        # time warning about a failure nobody looked at; it is not an
+        # exception raised by a callback into the loop
+        if 'never retrieved' in str(context.get('message', '')):
+            self.unretrieved.append(context)
+        else:
+            self.exceptions.append(context)
 
     def _run_once(self):
         self.iterations += 1
